@@ -1202,3 +1202,106 @@ func init() {
 			return obs
 		}})
 }
+
+// EVAL.values-are-called — C01 ("a builtin receives exactly the values of its
+// operands"): everything a BUILTIN holds is already a value — its arguments were
+// evaluated before it was entered, and the elements of a sequence argument are
+// values too.  Splicing such a value into a form `(f elem)` and handing the
+// form to Eval evaluates the element a second time: a symbol out of quoted
+// data is looked up, a list is called.  A builtin applies a function with
+// FunCall.  (The special operators' version of this is EVAL.no-reeval.)
+func init() {
+	register(&Rule{ID: "EVAL.values-are-called", Floor: 1,
+		Doc: "outside the special operators and macros (whose operands are unevaluated source) no kernel function hands <env>.Eval a form it built itself — SExpr over a slice literal, directly or through a local — unless every element after the head is a self-evaluating constant it just constructed (Int, Float, String, Bool, Nil, Quote(…)): higher-order builtins (all?, any?, stable-sort, insert-sorted, search-sorted …) apply the user's function to the element values with FunCall",
+		Run: func(c *Ctx) []Obligation {
+			const rid = "EVAL.values-are-called"
+			sexpr := c.LookupPkgFunc("lisp.SExpr")
+			if sexpr == nil {
+				return []Obligation{anchorMissing(rid, "lisp.SExpr")}
+			}
+			// bodies of operators and macros are exempt (EVAL.no-reeval covers operators)
+			exempt := map[ast.Node]bool{}
+			for _, e := range c.Registry() {
+				if e.Kind == "op" || e.Kind == "macro" {
+					if body, _, _, ok := c.BodyOf(e); ok {
+						exempt[body] = true
+					}
+				}
+			}
+			inert := map[string]bool{"Int": true, "Float": true, "String": true, "Bool": true, "Nil": true, "Quote": true, "Symbol": false}
+			var obs []Obligation
+			for _, u := range c.Funcs(isKernel) {
+				if u.Decl == nil || u.Decl.Body == nil || exempt[u.Decl.Body] {
+					continue
+				}
+				info := u.Pkg.TypesInfo
+				ord := &ordinal{}
+				ast.Inspect(u.Decl.Body, func(n ast.Node) bool {
+					if fl, ok := n.(*ast.FuncLit); ok && exempt[fl.Body] {
+						return false
+					}
+					ce, ok := n.(*ast.CallExpr)
+					if !ok || len(ce.Args) != 1 {
+						return true
+					}
+					se, ok := ast.Unparen(ce.Fun).(*ast.SelectorExpr)
+					if !ok || se.Sel.Name != "Eval" {
+						return true
+					}
+					if tv, ok := info.Types[se.X]; !ok || !strings.HasSuffix(tv.Type.String(), "lisp.LEnv") {
+						return true
+					}
+					// the form: SExpr(<slice literal>) directly or through a local
+					var form *ast.CallExpr
+					arg := ast.Unparen(ce.Args[0])
+					if inner, ok := arg.(*ast.CallExpr); ok && originOf(Callee(info, inner)) == sexpr {
+						form = inner
+					} else if o := identObj(info, arg); o != nil {
+						ast.Inspect(u.Decl.Body, func(m ast.Node) bool {
+							if as, ok := m.(*ast.AssignStmt); ok && len(as.Lhs) == len(as.Rhs) {
+								for i, l := range as.Lhs {
+									if identObj(info, l) == o {
+										if dc, ok := ast.Unparen(as.Rhs[i]).(*ast.CallExpr); ok && originOf(Callee(info, dc)) == sexpr {
+											form = dc
+										}
+									}
+								}
+							}
+							return true
+						})
+					}
+					if form == nil || len(form.Args) != 1 {
+						return true
+					}
+					cl, ok := ast.Unparen(form.Args[0]).(*ast.CompositeLit)
+					construct := ord.next("Eval of a built form")
+					if !ok {
+						obs = append(obs, mkOb(c, rid, u, construct, ce, Undecided, "the evaluated form is built over a slice this rule cannot see into", true))
+						return true
+					}
+					bad := ""
+					for i, el := range cl.Elts {
+						if i == 0 {
+							continue // the function being applied
+						}
+						ok := false
+						if ec, isCall := ast.Unparen(el).(*ast.CallExpr); isCall {
+							if f := Callee(info, ec); f != nil && inert[f.Name()] {
+								ok = true
+							}
+						}
+						if !ok {
+							bad = types.ExprString(el)
+						}
+					}
+					if bad != "" {
+						obs = append(obs, mkOb(c, rid, u, construct, ce, Violated, "the form handed to Eval contains `"+bad+"`, a value (an argument of the builtin or an element of one): it is evaluated a second time, so (all? symbol? '(a b)) fails with `unbound symbol: a`, and (any? f '(a)) silently hands f the value of the variable a instead of the symbol", true))
+					} else {
+						obs = append(obs, mkOb(c, rid, u, construct, ce, Proved, "every operand in the built form is a self-evaluating constant", true))
+					}
+					return true
+				})
+			}
+			return obs
+		}})
+}
